@@ -244,10 +244,9 @@ def replay_file(rep, bins, path, seed, tag):
         if v.get("kind") == "violation":
             rep.violation(v["class"], json.dumps(v["detail"]["step"])[:200] + " expected/got differ: " + v["class"], v,
                           name="%s_%s_%d.json" % (tag, v["class"].replace(":", "_").replace("/", "_"), len(rep.violations)))
-    # violations beyond the 40 detailed ones are still counted
-    extra = sum(summ["classes"].values()) - len([o for o in out if o.get("kind") == "violation"])
-    if extra > 0:
-        vlib.log("%d further mismatches not detailed (classes %s)" % (extra, summ["classes"]))
+    # only a few examples per class are detailed; every mismatch is counted
+    if summ["classes"]:
+        vlib.log("%s: mismatching transitions/behaviours per class: %s" % (tag, summ["classes"]))
     return summ
 
 
@@ -301,15 +300,47 @@ def corrupt_trace(src, dst, seed):
 
 
 def run_replay(rep, wd, bins, devs, replay):
-    """./check C19 --replay <file>: a violation file written by this check (replayer detail or trace prefix)."""
+    """./check C19 --replay <file>: re-evaluate a file written by this check against the current tree.
+    *.ndjson = a recorded run (trace prefix): validated again by TLC as it stands.
+    *.json   = a replayer violation: its history is executed again on the real UdpManager and the last
+               step is compared with the stored prediction of the spec."""
     if replay.endswith(".ndjson"):
         tr = vlib.tlc_trace("Trace_UdpFlows", write_trace_cfg(wd, devs), PID, replay, timeout=600)
         print(tr["out"][-3000:])
         if not tr["accepted"]:
             record_trace_rejection(rep, tr, replay, "replayed")
+        else:
+            rep.cov["traces_validated_against_impl"] += 1
     else:
         v = json.load(open(replay))
         d = v["detail"]
-        print(json.dumps(d, indent=1)[:6000])
-        rep.violation(v["class"], "stored violation (re-run the check to re-evaluate against the current tree)", v)
+        if "panic" in d and "step" not in d:      # a panic found by the random driver: history of (inp, now)
+            init = [0, 0, d["maxRx"], 0, [], d["cluster"], [], [-1, d["maxFlows"], 0, d["cluster"][1], []]]
+            steps = [{"inp": h["inp"], "now": h["now"]} for h in d["history"]]
+            seed = None
+        else:
+            init = d["init"]
+            steps = [{"inp": h["inp"], "now": h.get("now")} for h in d["history"]]
+            last = {"inp": d["step"]["inp"], "now": d["step"]["now"], "out": d["expected"]["out"],
+                    "post": [0, d["step"]["now"], 0, 0, [], [], [], d["expected"]["obs"]]}
+            steps.append(last)
+            seed = d["concretisation"].get("seed")
+        for st in steps:
+            if st.get("now") is None:
+                st.pop("now", None)
+        path = os.path.join(wd, "single.ndjson")
+        with open(path, "w") as f:
+            f.write(json.dumps({"init": init, "steps": steps}) + "\n")
+        if seed is None:
+            # driver concretisation (ms clock, byte lengths): replay_udp variant 2 is the closest; only panics matter here
+            seed = 2
+        out = vlib.run_harness(bins["replay_udp"], ["--seed", str(seed), "--threads", "1"], stdin_path=path, timeout=300)
+        for o in out:
+            if o.get("kind") == "violation":
+                print(json.dumps(o["detail"], indent=1)[:6000])
+                rep.violation(o["class"], json.dumps(o["detail"]["step"])[:200], o)
+        summ = [o for o in out if o.get("kind") == "summary"][0]
+        rep.cov["traces_validated_against_impl"] += summ["behaviours_ok"]
+        rep.cov["evaluations"] = summ["behaviour_steps"]
+    rep.cov["rule"] = "re-evaluation of one stored violation file"
     rep.finish()
